@@ -73,6 +73,54 @@ pub mod proofs {
     pub fn c15_conditional_shutdown_len6() {
         conditional_shutdown(6);
     }
+    /// The application hands its only strong reference to the registration and
+    /// reaches the flag through a `Weak` afterwards (any initial value, every
+    /// arm/disarm/deliver history of length 3, shutdown action alone): the process
+    /// dies iff the flag is true at the moment the action runs - not what it was
+    /// when the action was registered.
+    #[kani::proof]
+    #[kani::unwind(7)]
+    pub fn c15_conditional_shutdown_sole_owner() {
+        reg::init_globals();
+        let status: c_int = kani::any();
+        let init: bool = kani::any();
+        let cond = Arc::new(AtomicBool::new(init));
+        let weak = Arc::downgrade(&cond);
+        unsafe {
+            S::status = status;
+            S::cond = Arc::as_ptr(&cond);
+            vshim::HOOKS.terminated = terminated;
+        }
+        let r = ok(flag::register_conditional_shutdown(SA, status, cond));
+        assert!(r.is_some(), "C15: registering failed");
+        let mut c = init;
+        let mut step = 0;
+        let mut survived = 0;
+        while step < 3 {
+            let ev: u8 = kani::any();
+            kani::assume(ev < 3);
+            if ev == 1 || ev == 2 {
+                match weak.upgrade() {
+                    Some(f) => {
+                        f.store(ev == 1, Ordering::SeqCst);
+                        c = ev == 1;
+                        drop(f);
+                    }
+                    None => assert!(false, "C15: the registered action no longer holds its condition flag"),
+                }
+            } else {
+                unsafe { S::expect_exit = c };
+                deliver(SA);
+                assert!(!c, "C15: the process survived a delivery although the shutdown condition was true when the action ran");
+                survived += 1;
+            }
+            step += 1;
+        }
+        kani::cover!(init && survived == 1, "registered armed, disarmed later, survived a delivery");
+        kani::cover!(!init && survived == 2, "registered disarmed, survived two deliveries");
+        core::mem::forget(weak);
+    }
+
     fn conditional_shutdown(len: usize) {
         reg::init_globals();
         let status: c_int = kani::any();
